@@ -10,6 +10,7 @@ import (
 	"sync/atomic"
 	"time"
 
+	"github.com/alphadose/haxmap"
 	"github.com/dapr/kit/ttlcache"
 	"github.com/dapr/kit/verifhook"
 
@@ -1421,7 +1422,16 @@ func freeRun(res *lib.Result, cs *Case, r *lib.Rand, withReset, long bool) {
 		report("stop-hangs", "Stop did not return within 5s after a free run")
 	}
 	for _, v := range viols {
-		res.Violate(v.id, v.what, cs)
+		id := v.id
+		// the free-run known ids are attributed to the map only if the bare-haxmap control of the pair
+		// family (which runs first) has shown that class of defect in THIS run
+		switch {
+		case id == "free-run-live-entry-lost" && !mapDefectSeen.lost.Load():
+			id += "-not-explained-by-map"
+		case id == "free-run-lookup-missed-stored-entry" && !mapDefectSeen.lookup.Load():
+			id += "-not-explained-by-map"
+		}
+		res.Violate(id, v.what, cs)
 	}
 	res.Count(fmt.Sprintf("free/%d", cs.Seed), true)
 	res.Traces++
@@ -1434,62 +1444,175 @@ func freeRun(res *lib.Result, cs *Case, r *lib.Rand, withReset, long bool) {
 
 var pairNames = []string{"w0", "w1", "w2", "w3", "s0", "s1"}
 
-func pairScenario(res *lib.Result, cs *Case, a, b string, iters int) {
+// pairStore is what the two callers operate on: the real ttlcache, or — as the CONTROL — a bare
+// haxmap of the same version with the same keys and no ttlcache code at all.
+type pairStore interface {
+	set(k string, v int)
+	get(k string) (int, bool)
+	del(k string)
+	stored(k string, v int) bool
+	lenWrapped() bool
+	close()
+}
+
+type cacheStore struct{ c *ttlcache.Cache[int] }
+
+func newCacheStore() *cacheStore {
 	clk := ttlcache.NewVerifClock(t0)
-	c := ttlcache.VerifNewCache[int](ttlcache.CacheOptions{CleanupInterval: 100 * 365 * 24 * time.Hour}, clk)
-	defer c.Stop()
+	return &cacheStore{ttlcache.VerifNewCache[int](ttlcache.CacheOptions{CleanupInterval: 100 * 365 * 24 * time.Hour}, clk)}
+}
+func (s *cacheStore) set(k string, v int)      { s.c.Set(k, v, 1000) }
+func (s *cacheStore) get(k string) (int, bool) { return s.c.Get(k) }
+func (s *cacheStore) del(k string)             { s.c.Delete(k) }
+func (s *cacheStore) stored(k string, v int) bool {
+	for _, e := range s.c.VerifDump() {
+		if e.Key == k && e.Val == v {
+			return true
+		}
+	}
+	return false
+}
+func (s *cacheStore) lenWrapped() bool { n := s.c.VerifLen(); return n < 0 || n > 1<<40 }
+func (s *cacheStore) close()           { s.c.Stop() }
+
+type bareEntry struct {
+	val int
+	exp time.Time
+}
+type bareStore struct {
+	m *haxmap.Map[string, bareEntry]
+}
+
+func newBareStore() *bareStore { return &bareStore{haxmap.New[string, bareEntry]()} }
+func (s *bareStore) set(k string, v int) { s.m.Set(k, bareEntry{v, t0.Add(1000 * time.Second)}) }
+func (s *bareStore) get(k string) (int, bool) {
+	e, ok := s.m.Get(k)
+	return e.val, ok
+}
+func (s *bareStore) del(k string) { s.m.Del(k) }
+func (s *bareStore) stored(k string, v int) bool {
+	found := false
+	s.m.ForEach(func(kk string, e bareEntry) bool {
+		if kk == k && e.val == v {
+			found = true
+		}
+		return true
+	})
+	return found
+}
+func (s *bareStore) lenWrapped() bool { n := int(s.m.Len()); return n < 0 || n > 1<<40 }
+func (s *bareStore) close()           {}
+
+type pairCounts struct{ iters, transient, lost, wrong, lenWrapped int }
+
+func (p *pairCounts) add(q pairCounts) {
+	p.iters += q.iters
+	p.transient += q.transient
+	p.lost += q.lost
+	p.wrong += q.wrong
+	p.lenWrapped += q.lenWrapped
+}
+
+// pairRound: caller 1 repeats Set(a)/Delete(a); caller 2 repeats Set(b,i); Get(b); Delete(b).
+func pairRound(st pairStore, a, b string, iters int) pairCounts {
+	defer st.close()
 	var stop atomic.Bool
 	var wg sync.WaitGroup
 	wg.Add(1)
 	go func() {
 		defer wg.Done()
 		for !stop.Load() {
-			c.Set(a, 1, 1000)
-			c.Delete(a)
+			st.set(a, 1)
+			st.del(a)
 		}
 	}()
-	transient, lost, wrong, lenWrapped := 0, 0, 0, 0
+	c := pairCounts{iters: iters}
 	for i := 0; i < iters; i++ {
-		c.Set(b, i, 1000)
-		if c.VerifLen() < 0 || c.VerifLen() > 1<<40 {
-			lenWrapped++ // haxmap's item counter wrapped around: the pre-fix Cleanup sized make() with it and panicked
+		st.set(b, i)
+		if st.lenWrapped() {
+			c.lenWrapped++ // the map's item counter wrapped around: the pre-fix Cleanup sized make() with it and panicked
 		}
-		v, ok := c.Get(b)
+		v, ok := st.get(b)
 		switch {
 		case ok && v != i:
-			wrong++
+			c.wrong++
 		case !ok:
-			stored := false
-			for _, e := range c.VerifDump() {
-				if e.Key == b && e.Val == i {
-					stored = true
-				}
-			}
-			if stored {
-				transient++
+			if st.stored(b, i) {
+				c.transient++
 			} else {
-				lost++
+				c.lost++
 			}
 		}
-		c.Delete(b)
+		st.del(b)
 	}
 	stop.Store(true)
 	wg.Wait()
+	return c
+}
+
+// what the bare-haxmap control has shown in THIS run (gates the free-run known ids too)
+var mapDefectSeen struct{ lost, lookup atomic.Bool }
+
+const (
+	ctlWant   = 3  // stop the control once it has shown this many events of each needed class
+	ctlBudget = 12 // … or after this many control rounds of the same size
+)
+
+// excess: the cache loses at a rate the map alone does not explain (needs a meaningful sample)
+func excess(n, iters, ctlN, ctlIters int) bool {
+	return n >= 20 && float64(n)/float64(iters) > 10*float64(ctlN+1)/float64(ctlIters)
+}
+
+// pairScenario runs the workload on ttlcache and, as control, on a bare haxmap. A loss class is
+// reported under its `known:` id only if the control shows the same class in this run for the same
+// key pair at a comparable rate; otherwise it is a ttlcache defect and gets a different id.
+func pairScenario(res *lib.Result, cs *Case, a, b string, iters int) {
+	tc := pairRound(newCacheStore(), a, b, iters)
 	res.Count("pair/"+a+"/"+b, true)
 	res.Hit("family:pair(two callers, two keys, no cleaner)")
-	if lenWrapped > 0 {
+	if tc.lenWrapped > 0 {
 		res.Hit("pair:map-Len()-wrapped-around(pre-fix Cleanup panicked on it)")
 	}
-	if wrong > 0 {
-		res.Violate("get-returned-superseded-value", fmt.Sprintf("pair %s/%s: %d Gets returned a value other than the one just set", a, b, wrong), cs)
+	if tc.wrong > 0 {
+		res.Violate("get-returned-superseded-value", fmt.Sprintf("pair %s/%s: %d Gets returned a value other than the one just set", a, b, tc.wrong), cs)
 	}
-	if transient > 0 {
+	var ctl pairCounts
+	rounds := 1
+	ctl.add(pairRound(newBareStore(), a, b, iters)) // always once, for the record
+	for (tc.lost > 0 && ctl.lost < ctlWant || tc.transient > 0 && ctl.transient < ctlWant) && rounds < ctlBudget {
+		ctl.add(pairRound(newBareStore(), a, b, iters))
+		rounds++
+	}
+	res.Hit("pair:control-rounds-on-bare-haxmap:" + strconv.Itoa(rounds))
+	if ctl.lost > 0 {
+		mapDefectSeen.lost.Store(true)
+		res.Hit("pair:control(bare haxmap)-entry-lost")
+	}
+	if ctl.transient > 0 {
+		mapDefectSeen.lookup.Store(true)
+		res.Hit("pair:control(bare haxmap)-lookup-missed-stored-entry")
+	}
+	desc := fmt.Sprintf("caller 1 loops Set(%q)/Delete(%q); caller 2 does Set(%q,i); Get(%q); Delete(%q)", a, a, b, b, b)
+	ctlDesc := func(n int) string {
+		return fmt.Sprintf("control = identical workload on a bare haxmap, same keys, no ttlcache code: %d of %d in %d round(s)", n, ctl.iters, rounds)
+	}
+	if tc.transient > 0 {
 		res.Hit("pair:lookup-missed-stored-entry")
-		res.Violate("concurrent-lookup-missed-stored-entry", fmt.Sprintf("caller 1 loops Set(%q)/Delete(%q); caller 2 does Set(%q,i); Get(%q): %d of %d Gets missed although the entry was stored and live (no Cleanup/Reset involved)", a, a, b, b, transient, iters), cs)
+		what := fmt.Sprintf("%s: %d of %d Gets missed although the entry was stored and live (no Cleanup/Reset involved); %s", desc, tc.transient, iters, ctlDesc(ctl.transient))
+		if ctl.transient > 0 && !excess(tc.transient, iters, ctl.transient, ctl.iters) {
+			res.Violate("concurrent-lookup-missed-stored-entry", what, cs)
+		} else {
+			res.Violate("concurrent-lookup-missed-stored-entry-not-explained-by-map", what, cs)
+		}
 	}
-	if lost > 0 {
+	if tc.lost > 0 {
 		res.Hit("pair:entry-lost")
-		res.Violate("concurrent-live-entry-lost", fmt.Sprintf("caller 1 loops Set(%q)/Delete(%q); caller 2 does Set(%q,i); Get(%q): %d of %d Sets were lost entirely (Get misses, entry not stored; no Cleanup/Reset involved)", a, a, b, b, lost, iters), cs)
+		what := fmt.Sprintf("%s: %d of %d Sets were lost entirely (Get misses, entry not stored; no Cleanup/Reset involved); %s", desc, tc.lost, iters, ctlDesc(ctl.lost))
+		if ctl.lost > 0 && !excess(tc.lost, iters, ctl.lost, ctl.iters) {
+			res.Violate("concurrent-live-entry-lost", what, cs)
+		} else {
+			res.Violate("concurrent-live-entry-lost-not-explained-by-map", what, cs)
+		}
 	}
 }
 
@@ -1504,7 +1627,7 @@ func runPairs(f lib.Flags, res *lib.Result) {
 				continue
 			}
 			cs := &Case{Mode: "pair", Lines: []string{a, b, strconv.Itoa(iters)}}
-			out := guarded(60*time.Second, func() string { pairScenario(res, cs, a, b, iters); return "ok" })
+			out := guarded(300*time.Second, func() string { pairScenario(res, cs, a, b, iters); return "ok" })
 			if out != "ok" {
 				res.Violate("pair-scenario-"+out, "pair scenario "+a+"/"+b+" ended with "+out, cs)
 			}
